@@ -340,6 +340,12 @@ def c08(view, info):
             raise Violation('c08.blacklisted',
                             '%s is blacklisted but on %s after the cycle' %
                             (aname, asrv))
+        truth = getattr(view, 'blacklisted_by_truth', None)
+        if asrv is not None and truth is not None and truth(aname):
+            raise Violation('c08.blacklisted',
+                            '%s matches the blacklist the master loaded (%s) '
+                            'but is on %s after the cycle' %
+                            (aname, view.bl_loaded, asrv))
         if asrv is not None and asrv != bsrv:
             if servers[asrv].state is not scheduler.State.up:
                 raise Violation(
